@@ -28,6 +28,9 @@ SETS = [
     (("EMA2", None), ("SMA2", "T2"), ("OBV", "T4"), ("HTF", "T2")),
     # dots in a user supplied suffix are sanitised like generated ones
     (("EMA2dot", None), ("positive", "T2")),
+    # lifespan trimming: the lists shrink from the front while the access paths are used between appends
+    (("EMA2", None), ("ST2", None), ("LIFE", 120)),
+    (("SMA2", "T2"), ("OBV", None), ("MACD232", None), ("LIFE", 240)),
 ]
 from ..configs import _c
 BY_LABEL["EMA2dot"] = _c("EMA2dot", "EMA", period=2, smoothing=2.5, name_suffix="s2.5")
@@ -125,11 +128,15 @@ def trailing(ind, name):
 def build(members):
     from hexital import Hexital
     fill = any(l == "FILL" for l, _ in members)
-    inds = [make(BY_LABEL[l], **({"timeframe": t} if t else {})) for l, t in members if l not in ("FILL", "SIGMA", "HTF")]
+    inds = [make(BY_LABEL[l], **({"timeframe": t} if t else {})) for l, t in members if l not in ("FILL", "SIGMA", "HTF", "LIFE")]
     kw = {"timeframe_fill": True} if fill else {}
     htf = next((t for l, t in members if l == "HTF"), None)
     if htf:
         kw["timeframe"] = htf
+    life = next((t for l, t in members if l == "LIFE"), None)
+    if life:
+        from datetime import timedelta
+        kw["candles_lifespan"] = timedelta(seconds=life)
     return Hexital("h", [], inds, **kw)
 
 
@@ -181,9 +188,9 @@ def replay(case):
     raw = [tuple(r) for r in case["raw"]]
     hx = build(members)
     try:
-        for pos in range(case["pos"]):
+        for pos in range(case["pos"]):  # exactly the exploration's program: every access path is exercised after every append
             hx.append(fresh(raw[pos:pos + 1])[0])
-        check_state(rep, hx, {"set": members, "raw": raw, "pos": case["pos"]})
+            check_state(rep, hx, {"set": members, "raw": raw, "pos": pos + 1})
     except Exception:
         return True
     return bool(rep.viol)
